@@ -206,6 +206,128 @@ func cmdCfgFlags(args []string) int {
 	waitAt := sf.firstCall(stop, "connWg.Wait")
 	flags["stop_interrupts"] = intrAt >= 0 && cancelAt >= 0 && waitAt >= 0 && cancelAt < intrAt && intrAt < waitAt
 
+	// ---- the control-flow skeleton the LTS is a model of ------------------------------------
+	// Beyond the flags: how many ways out Stop has before it waits, how many return paths Run's
+	// accept loop and the read loop have, and every place that sets a deadline on a connection
+	// (Stop's interrupt relies on being the last word on deadlines).  CfgTie.v states what the
+	// model was written against; a new early return, a new return path of the read loop or a new
+	// deadline site breaks that theorem even if every scenario still passes.
+	type kv struct {
+		k string
+		v int
+	}
+	var skel []kv
+	countReturns := func(body ast.Node, before int, skipLits bool) int {
+		n := 0
+		var walk func(x ast.Node) bool
+		walk = func(x ast.Node) bool {
+			if _, ok := x.(*ast.FuncLit); ok && skipLits && x != body {
+				return false
+			}
+			if r, ok := x.(*ast.ReturnStmt); ok {
+				if before < 0 || sf.fset.Position(r.Pos()).Offset < before {
+					n++
+				}
+			}
+			return true
+		}
+		ast.Inspect(body, walk)
+		return n
+	}
+	skel = append(skel, kv{"Stop.returns_before_wait", countReturns(stop.Body, waitAt, true)})
+	skel = append(skel, kv{"Stop.returns", countReturns(stop.Body, -1, true)})
+	skel = append(skel, kv{"Run.returns", countReturns(run.Body, -1, true)})
+	if goLit != nil {
+		skel = append(skel, kv{"Run.conn_goroutine.returns", countReturns(goLit.Body, -1, false) - countReturns(teardown.Body, -1, false)})
+		skel = append(skel, kv{"Run.conn_goroutine.teardown.returns", countReturns(teardown.Body, -1, false)})
+	}
+	skel = append(skel, kv{"serveRequests.returns", countReturns(serve.Body, -1, true)})
+	goStmts := func(n ast.Node) int {
+		k := 0
+		ast.Inspect(n, func(x ast.Node) bool {
+			if _, ok := x.(*ast.GoStmt); ok {
+				k++
+			}
+			return true
+		})
+		return k
+	}
+	// the dispatch switch of the read loop: Unbind (inline, ends the loop), StartTLS (inline),
+	// everything else (its own goroutine).  A further case is a class of requests the LTS does not have
+	dispatchCases := 0
+	ast.Inspect(serve, func(x ast.Node) bool {
+		if sw, ok := x.(*ast.SwitchStmt); ok && dispatchCases == 0 && strings.Contains(sf.text(sw), "unbindRouteOperation") {
+			dispatchCases = len(sw.Body.List)
+		}
+		return true
+	})
+	skel = append(skel, kv{"serveRequests.dispatch_cases", dispatchCases})
+	skel = append(skel, kv{"Run.go_statements", goStmts(run)})
+	skel = append(skel, kv{"serveRequests.go_statements", goStmts(serve)})
+	skel = append(skel, kv{"Stop.go_statements", goStmts(stop)})
+	// deadline sites in every non-test file of the package (hook file excluded), per function
+	entries, _ := os.ReadDir(root)
+	dl := map[string]int{}
+	chans := 0
+	for _, e := range entries {
+		n := e.Name()
+		if !strings.HasSuffix(n, ".go") || strings.HasSuffix(n, "_test.go") || n == "verif_export.go" {
+			continue
+		}
+		p := filepath.Join(root, n)
+		b, err := os.ReadFile(p)
+		if err != nil {
+			continue
+		}
+		fs := token.NewFileSet()
+		f, err := parser.ParseFile(fs, p, b, 0)
+		if err != nil {
+			fmt.Fprintln(os.Stderr, "cfgflags:", err)
+			return 1
+		}
+		for _, d := range f.Decls {
+			fd, ok := d.(*ast.FuncDecl)
+			if !ok || fd.Body == nil {
+				continue
+			}
+			ast.Inspect(fd.Body, func(x ast.Node) bool {
+				if c, ok := x.(*ast.CallExpr); ok {
+					if se, ok := c.Fun.(*ast.SelectorExpr); ok {
+						switch se.Sel.Name {
+						case "SetDeadline", "SetReadDeadline", "SetWriteDeadline":
+							dl[fd.Name.Name+"."+se.Sel.Name]++
+						}
+					}
+				}
+				return true
+			})
+		}
+		// package-level channels, pools and semaphores: state shared between connections that the
+		// LTS does not have (its connections share the listener, the wait group, the table, the mux)
+		for _, d := range f.Decls {
+			gd, ok := d.(*ast.GenDecl)
+			if !ok || gd.Tok != token.VAR {
+				continue
+			}
+			for _, sp := range gd.Specs {
+				vs := sp.(*ast.ValueSpec)
+				txt := string(b[fs.Position(vs.Pos()).Offset:fs.Position(vs.End()).Offset])
+				if strings.Contains(txt, "chan ") || strings.Contains(txt, "sync.") || strings.Contains(txt, "atomic.") {
+					chans++
+				}
+			}
+		}
+	}
+	var dk []string
+	for k := range dl {
+		dk = append(dk, k)
+	}
+	sortStrings(dk)
+	for _, k := range dk {
+		skel = append(skel, kv{"deadline:" + k, dl[k]})
+	}
+	skel = append(skel, kv{"package_level_sync_state", chans})
+
 	fmt.Println("(* CfgGen.v - REGENERATED from /repo's server.go and conn.go on every run by `vh cfgflags` (harness/cfgflags.go). Do not edit. *)")
 	for _, k := range []string{"handler_rec", "wg_last", "add_before_accept", "stop_interrupts", "ready_on_error", "close_on_cancel", "accept_retry", "untrack_late"} {
 		fmt.Printf("Definition gen_%s : bool := %v.\n", k, flags[k])
@@ -213,5 +335,23 @@ func cmdCfgFlags(args []string) int {
 	for k, v := range notes {
 		fmt.Printf("(* %s: %s *)\n", k, v)
 	}
+	fmt.Println("Require Import Coq.Strings.String Coq.Lists.List.\nImport ListNotations.\nOpen Scope string_scope.")
+	fmt.Println("Definition gen_skeleton : list (string * nat) := [")
+	for i, e := range skel {
+		sep := ";"
+		if i == len(skel)-1 {
+			sep = ""
+		}
+		fmt.Printf("  (%q, %d)%s\n", e.k, e.v, sep)
+	}
+	fmt.Println("].")
 	return 0
+}
+
+func sortStrings(a []string) {
+	for i := 1; i < len(a); i++ {
+		for j := i; j > 0 && a[j] < a[j-1]; j-- {
+			a[j], a[j-1] = a[j-1], a[j]
+		}
+	}
 }
